@@ -3,7 +3,6 @@ package core
 import (
 	"encoding/json"
 	"fmt"
-	"time"
 
 	sdk "github.com/cosmos/cosmos-sdk/types"
 
@@ -173,12 +172,6 @@ func (e *Explorer[O, L]) DumpHashes() {
 		s.Add(h)
 	}
 	s.Dump(e.F.HashOut)
-}
-
-// Finish stamps the wall time and emits.
-func Finish(f *Flags, r *Result) {
-	r.WallS = time.Since(f.Start).Seconds()
-	r.Emit()
 }
 
 func Fmt(format string, a ...interface{}) string { return fmt.Sprintf(format, a...) }
